@@ -23,7 +23,8 @@ RULE = ('state = (stream, template, mode, option vector, representation, index c
 ASSUMPTIONS = [
     'numbers enumerated per 23009-1 5.3.9.5.3: ceil(PeriodDuration x timescale / @duration)',
     'on-demand ranges: a range must start and end on top-level box boundaries, contain exactly one moof and one mdat, '
-    'and the ranges must tile the file from the end of the initialization range to the end of the file',
+    'and the ranges must tile the file from the end of the initialization range to the end of its last segment (only boxes that '
+    'belong to no segment, e.g. a trailing mfra, may follow)',
     'presentation duration compared with the reference (first video) file duration to 0.5 ms',
 ]
 
@@ -240,8 +241,12 @@ def check_ranges(w, acc, bad, rec, rep, f, kind):
                 f'{len(rr.body)} bytes', rep=rep.id)
         else:
             acc.nontriv((rec['stream'], rec['template'], tuple(sorted(rec['opts'].items())), rep.id, 'range', i))
-    if cur != len(data):
-        bad(f'range-tiling|{kind}', f'{rep.id}: ranges end at {cur - 1}, file has {len(data)} bytes', rep=rep.id)
+    rest = [x.name for x in root.children if x.start >= cur]
+    if cur != len(data) and (cur not in starts or any(n in ('moof', 'mdat', 'styp', 'sidx', 'free', 'skip') for n in rest)):
+        # (boxes that belong to no segment - an mfra index after the last fragment - need not be in a range; media,
+        # segment-type/index and padding boxes do: they belong to the segment in front of or behind them)
+        bad(f'range-tiling|{kind}', f'{rep.id}: ranges end at {cur - 1}, file has {len(data)} bytes and goes on with {rest}',
+            rep=rep.id)
     n_stored = len(f['segs'])
     if len(sl['media']) != n_stored:
         bad(f'range-count|{kind}', f'{rep.id}: {len(sl["media"])} media ranges, stored file has {n_stored} segments',
